@@ -4,6 +4,7 @@ import Driver.Expose
 import Driver.Ports
 import Driver.Outline
 import Driver.Fault
+import Driver.FaultRun
 import Driver.Savable
 import Driver.Futures
 import Driver.Launcher
@@ -25,6 +26,7 @@ def main (args : List String) : IO UInt32 := do
   | ["ports"] => DrvPorts.main; return 0
   | ["outline"] => DrvOutline.main; return 0
   | ["fault"] => DrvFault.main; return 0
+  | ["faultrun"] => DrvFaultRun.main; return 0
   | ["savable"] => DrvSavable.main; return 0
   | ["futures"] => DrvFutures.main; return 0
   | ["launcher"] => DrvLauncher.main; return 0
@@ -37,4 +39,4 @@ def main (args : List String) : IO UInt32 := do
   | ["procstack"] => DrvProcStack.main; return 0
   | ["comms"] => DrvComms.main; return 0
   | ["status"] => DrvStatus.main; return 0
-  | _ => IO.eprintln "usage: pmodel <comms|expose|fault|futures|launcher|outline|persist|persister|pm|pml|pmr|ports|portsout|procstack|restore|restoreplain|savable|status>"; return 2
+  | _ => IO.eprintln "usage: pmodel <comms|expose|fault|faultrun|futures|launcher|outline|persist|persister|pm|pml|pmr|ports|portsout|procstack|restore|restoreplain|savable|status>"; return 2
